@@ -84,6 +84,23 @@ impl UserFunction for Probe {
     }
 }
 
+/// A probe that does not override `cacheable()`: the trait's documented default (cacheable) applies.
+pub struct DefaultCacheabilityProbe(pub Probe);
+
+/// name of the probe that is registered without overriding `cacheable()` (its spec is always cacheable)
+pub const DEFAULT_CACHEABILITY_NAME: &str = "fd";
+
+#[async_trait]
+impl UserFunction for DefaultCacheabilityProbe {
+    async fn call(&self, param: Value) -> FunctionResult {
+        self.0.call(param).await
+    }
+
+    fn name(&self) -> &'static str {
+        self.0.name
+    }
+}
+
 /// Everything needed to build one ruleset under test.
 #[derive(Clone, Debug, Default)]
 pub struct SetSpec {
@@ -108,16 +125,20 @@ pub fn build(spec: &SetSpec, tokio_yield: bool) -> Built {
             .expect("harness generates distinct rule names");
     }
     for (name, fs) in &spec.fns {
-        b = b
-            .with_function(Probe {
-                name: intern(name),
-                spec: fs.clone(),
-                suspend: spec.suspend,
-                log: log.clone(),
-                counts: counts.clone(),
-                tokio_yield,
-            })
-            .expect("harness generates valid function names");
+        let p = Probe {
+            name: intern(name),
+            spec: fs.clone(),
+            suspend: spec.suspend,
+            log: log.clone(),
+            counts: counts.clone(),
+            tokio_yield,
+        };
+        b = if name == DEFAULT_CACHEABILITY_NAME && fs.cacheable {
+            b.with_function(DefaultCacheabilityProbe(p))
+        } else {
+            b.with_function(p)
+        }
+        .expect("harness generates valid function names");
     }
     for (k, v) in &spec.symbols {
         b = b.with_symbol(k, v.clone());
